@@ -172,7 +172,10 @@ def compare_runs(spec, run0, run1, t0, fit, lin, vmap, cmap, fails, info, kind, 
         if worst[1] == "flat" and worst[0] > 0.05:
             emit(f"coefficient-pairs:flat-fit-breakdown:{fit}", worst[2] + f"  [{kind}]")     # e.g. fitted centre on the line in one presentation
         elif kind.endswith("-far"):
-            emit(f"coefficient-pairs:far-translation:{fit}", worst[2] + f"  [{kind}, {worst[1]}]")
+            # the known loss of accuracy of the dlite fit far from the origin stays below 0.05 (2.5e-2 at 1e4 tissue sizes);
+            # anything larger is a different failure and gets its own key, so the known finding cannot hide it
+            gross = "-gross" if worst[0] > 0.05 else ""
+            emit(f"coefficient-pairs:far-translation{gross}:{fit}", worst[2] + f"  [{kind}, {worst[1]}]")
         else:
             emit(f"coefficient-pairs:{kind}:{worst[1]}:{fit}", worst[2])
         return                                            # tensions / pressures would only repeat this
